@@ -461,3 +461,12 @@ def c12_rc_code_is_reverse_complement(m, i):
     r = rc_code(m)
     assert len(r) == len(m) and chr_(r[i]) == comp(m[len(m) - 1 - i]), "the four replaces + reverse + upper compute the reverse complement"
 ''', requires={"position": "i < len(m)"})
+
+
+# ---------------------------------------------------------------------------------------------------------------- C14
+harness("c14_roundtrip_latter_map", {"acc0": "mat(ipow(4, k), 4)", "v": "nat", "j": "nat"}, '''
+def c14_roundtrip_latter_map(acc0, k, v, j):
+    lm = accessor_to_latter_map(acc0)
+    back = latter_map_to_accessor(lm, k)
+    assert back[v][j] == acc0[v][j], "accessor -> latter map -> accessor is the identity"
+''', requires={"graph": "k >= 1 and is_accessor(acc0, k)", "entry": "v < ipow(4, k) and j < 4"}, ghost_params={"k": "nat"})
